@@ -1125,6 +1125,18 @@ def rule_r4(repo: Repo, res: Result) -> None:
         res.undecided += [u for u in scratch.undecided if u["rule"] != "C04.R4"]
         res.add("C04.R4", tag, verdict, detail + (f" (symbolic reading gave up: {und[0]['detail'][:160]})" if verdict else ""), wh, kind="decision-table")
         return
+    # claims of the form 'I do not see that ..' (a condition the reading cannot interpret, a chain it does not recognise, nothing found)
+    # are not evidence of a defect; 'an imported name becomes a node', 'inherits=False', 'the edge is requested before ..' are
+    WEAK = ("is not unconditional", "additionally depends on", "the linked chain is", "does not visit every consecutive", "no node is created", "no hierarchy (inherits=True) edge is created", "it does not happen for", "are not created for every scanned module")
+    STRONG = ("*imported* name", "imported name without testing", "inherits=", "is requested before", "is not made a node before the edge", "can be left early")
+    weak_only = bool(bad) and len(bad_construction) == len(bad) and all(any(w in o.detail for w in WEAK) and not any(x in o.detail for x in STRONG) for o in bad)
+    if weak_only and verdict is True:
+        # the reading does not understand the construction, and on every model input the built graph is the demanded one
+        res.obligations += [o for o in scratch.obligations if o.ok]
+        res.floors.update({k: v for k, v in scratch.floors.items() if v[1] >= v[0]})
+        res.undecided += [u for u in scratch.undecided if u["rule"] != "C04.R4"]
+        res.add("C04.R4", tag, True, detail + f" (the symbolic reading could not follow the construction: {bad[0].detail[:160]})", wh, kind="decision-table")
+        return
     if bad_construction and len(bad_construction) == len(bad) and verdict is True:
         # a defect read into a construction whose result is right on every model input: the reading is not trusted
         res.obligations += [o for o in scratch.obligations if o.ok]
